@@ -79,7 +79,7 @@ def shrink(ck, script, pred, budget=120):
     return dict(script, actions=acts)
 
 
-def model_view(ck, case, k, module="Corr.SyncCorr"):
+def model_view(ck, case, k, module="Corr.SyncCorr", view="model_view"):
     from gallina import g
     if isinstance(case["coq"], list):
         # a group of cases: k = 1000000 * (1 + index) + verdict of that case
@@ -87,11 +87,11 @@ def model_view(ck, case, k, module="Corr.SyncCorr"):
         if idx < 0:
             return None
         case = {"coq": case["coq"][idx]}
-    return corr.eval_term(ck.prop + "-mv", module, "model_view %s %d%%nat" % (g(case["coq"]), max(k - 1, 0)))
+    return corr.eval_term(ck.prop + "-mv", module, "%s %s %d%%nat" % (view, g(case["coq"]), max(k - 1, 0)))
 
 
 def triage(ck, fam, cases, verdicts, wfs, clause, nontrivial, oracle_ok=lambda c: c["oracle"]["ok"],
-           module="Corr.SyncCorr", fn="check_scase", ctype="scase", known_match=None):
+           module="Corr.SyncCorr", fn="check_scase", ctype="scase", known_match=None, view="model_view"):
     """Decide what the observed disagreements mean.  Returns number of violations added."""
     bad_oracle = [i for i, c in enumerate(cases) if not oracle_ok(c)]
     diffs = [i for i, v in enumerate(verdicts) if v != 0 and oracle_ok(cases[i])]
@@ -126,7 +126,7 @@ def triage(ck, fam, cases, verdicts, wfs, clause, nontrivial, oracle_ok=lambda c
             if r.get("coq") is not None:
                 vv, _, _ = corr.eval_cases(ck.prop + "-one", module, ctype, fn, [r["coq"]])
                 mv = {"first_observation_the_model_does_not_share": vv[0],
-                      "model_state_there": model_view(ck, r, vv[0], module) if vv[0] else None}
+                      "model_state_there": model_view(ck, r, vv[0], module, view) if vv[0] else None}
             path = ck.write_replay(fam + "-oracle", {
                 "property": ck.prop, "kind": "failing input (direct oracle on the implementation)",
                 "clause": clause, "family": fam, "script": small, "original_script": c["script"],
@@ -157,7 +157,7 @@ def triage(ck, fam, cases, verdicts, wfs, clause, nontrivial, oracle_ok=lambda c
             "broken": "correspondence %s.%s between coq/theories/Model and /repo (family %s)" % (module, fn, fam),
             "clause": clause, "script": small, "original_script": c["script"],
             "first_observation_the_model_does_not_share": vv[0],
-            "model_state_there": model_view(ck, r, vv[0], module),
+            "model_state_there": model_view(ck, r, vv[0], module, view),
             "implementation_oracle": r["oracle"],
             "disagreeing_cases": len(diffs), "cases_searched_with_oracle": len(cases),
             "replay": "./check %s --replay <this file>" % ck.prop})
@@ -168,7 +168,7 @@ def triage(ck, fam, cases, verdicts, wfs, clause, nontrivial, oracle_ok=lambda c
 
 def run_family(ck, fam, count, clause, nontrivial, extra_args=(), corpus=True, known_match=None,
                oracle_ok=lambda c: c["oracle"]["ok"], module="Corr.SyncCorr", fn="check_scase",
-               ctype="scase", wf="wf_scase", per_file=60):
+               ctype="scase", wf="wf_scase", per_file=60, view="model_view"):
     cases = []
     if corpus:
         for p in sorted(glob.glob("%s/corpus/%s/*.json" % (lib.VERIF, ck.prop))):
@@ -196,13 +196,13 @@ def run_family(ck, fam, count, clause, nontrivial, extra_args=(), corpus=True, k
         ck.samples.append({"family": fam, "script": evalable[-1]["script"], "oracle": evalable[-1]["oracle"]})
     crashed = [c for c in cases if c.get("coq") is None]
     n = triage(ck, fam, evalable + crashed, verdicts + [0] * len(crashed), wfs + [True] * len(crashed),
-               clause, nontrivial, oracle_ok, module, fn, ctype, known_match)
+               clause, nontrivial, oracle_ok, module, fn, ctype, known_match, view)
     ck.obligations.append(("correspondence %s (%d cases, model = implementation on every observation; oracle on every case)"
                            % (fam, len(cases)), n == 0, "ok" if n == 0 else "see replay"))
     return cases
 
 
-def replay_file(ck, path, module="Corr.SyncCorr", fn="check_scase", ctype="scase"):
+def replay_file(ck, path, module="Corr.SyncCorr", fn="check_scase", ctype="scase", view="model_view"):
     doc = json.load(open(path))
     s = doc.get("script", doc)
     ok, log = ck.harness_build()
@@ -216,7 +216,7 @@ def replay_file(ck, path, module="Corr.SyncCorr", fn="check_scase", ctype="scase
         vv, _, _ = corr.eval_cases(ck.prop + "-replay", module, ctype, fn, [r["coq"]])
         print("model verdict (0 = agrees on every observation, k = first observation not shared):", vv[0])
         if vv[0]:
-            print(model_view(ck, r, vv[0], module))
+            print(model_view(ck, r, vv[0], module, view))
         bad = (not r["oracle"]["ok"]) or vv[0] != 0
     else:
         bad = True
